@@ -70,3 +70,101 @@ func PrepareC17(ctx *Ctx) (*Prepared, error) {
 	p.Explanation = "bounded symbolic execution of bebop.Format applied twice; the two outputs are compared byte for byte (symbolic bytes included)"
 	return p, nil
 }
+
+func PrepareC10(ctx *Ctx) (*Prepared, error) {
+	hdir := filepath.Join(ctx.Verif, "harness")
+	p := &Prepared{Targets: map[string]*ReplayTarget{}, ExpectReach: map[string][]string{}}
+	add := func(fn string, reach string) {
+		j := &Job{Name: "C10-" + fn, Dir: hdir, Patterns: []string{"./text"}, Funcs: []string{"vh/text." + fn},
+			Opt: JobOptions{LoopBudget: 100000, AllocLimit: 1 << 22, TimeoutMs: 20000, EnumCap: 300, CheckRewrites: true, Witnesses: 2, FuncBudgetS: textBudget(ctx)}}
+		p.Jobs = append(p.Jobs, j)
+		p.ExpectReach[j.Name] = []string{reach}
+	}
+	for s := 0; s < 16; s++ {
+		add(fmt.Sprintf("VH_C10A_%02d", s), "c10a")
+	}
+	for s := 0; s < 4; s++ {
+		add(fmt.Sprintf("VH_C10B_%02d", s), "c10b")
+	}
+	if ctx.Tier == "thorough" {
+		for s := 0; s < 16; s++ {
+			add(fmt.Sprintf("VH_C10A2_%02d", s), "c10a")
+		}
+	}
+	p.Targets["vh/text"] = textTarget(ctx)
+	p.Programs = 1
+	p.Assumptions = textAssumptions()
+	p.Stubs = []string{"vstub.FragReader (fault injection)", "fmt.* approximated"}
+	p.Bounds = map[string]interface{}{
+		"hosts":   "7 valid host schemas (struct, message, enum, [flags], union, consts, attributes/comments/import)",
+		"splice":  "1 (quick) / 1 and 2 (thorough) fully symbolic bytes (all 256 values each, hence every 1-2 byte UTF-8 prefix) inserted at every byte offset of every host",
+		"tail":    "the appended definition is a fixed struct",
+		"faults":  "underlying reader fails with a non-EOF error at every offset of every host, with and without data returned alongside the error",
+		"outside": "windows longer than 2 bytes, several windows, hosts outside the list",
+	}
+	p.Explanation = "bounded symbolic execution of bebop.ReadFile on a valid schema with a symbolic byte window: absence of panics and runaway loops on every path; when the text and the text plus one more definition are both accepted, the definition must be present"
+	return p, nil
+}
+
+func prepareTextFuncs(ctx *Ctx, prop string, funcs []string, reach string) *Prepared {
+	hdir := filepath.Join(ctx.Verif, "harness")
+	p := &Prepared{Targets: map[string]*ReplayTarget{}, ExpectReach: map[string][]string{}}
+	for _, fn := range funcs {
+		j := &Job{Name: prop + "-" + fn, Dir: hdir, Patterns: []string{"./text"}, Funcs: []string{"vh/text." + fn},
+			Opt: JobOptions{LoopBudget: 100000, AllocLimit: 1 << 22, TimeoutMs: 20000, EnumCap: 300, CheckRewrites: true, Witnesses: 2, FuncBudgetS: textBudget(ctx)}}
+		p.Jobs = append(p.Jobs, j)
+		if reach != "" {
+			p.ExpectReach[j.Name] = []string{reach}
+		}
+	}
+	p.Targets["vh/text"] = textTarget(ctx)
+	p.Programs = 1
+	p.Assumptions = textAssumptions()
+	p.Stubs = []string{"vstub.FragReader", "fmt.* approximated", "strconv.ParseFloat native on concrete input"}
+	return p
+}
+
+func PrepareC13(ctx *Ctx) (*Prepared, error) {
+	var funcs []string
+	for w := 0; w < 6; w++ {
+		funcs = append(funcs, fmt.Sprintf("VH_C13D_%02d", w), fmt.Sprintf("VH_C13N_%02d", w))
+	}
+	for w := 0; w < 7; w++ {
+		funcs = append(funcs, fmt.Sprintf("VH_C13U_%02d", w))
+	}
+	for w := 0; w < 8; w++ {
+		funcs = append(funcs, fmt.Sprintf("VH_C13R_%02d", w))
+	}
+	funcs = append(funcs, "VH_C13P_00", "VH_C13C_00", "VH_C13G_00", "VH_C13G_01")
+	p := prepareTextFuncs(ctx, "C13", funcs, "c13")
+	p.Bounds = map[string]interface{}{
+		"error_classes": "duplicate names (struct/message fields, enum options, definitions of every pair of kinds, inline union branch vs top level, consts) with the two names symbolic; duplicate enum values (unsigned and signed), message and union indices, opcodes over every pair of record kinds, message index zero, with the numbers symbolic; undefined type reference at 7 kinds of site with the referenced name symbolic; definitions named like each of the 14 primitives; enum literals (3-5 symbolic digits, positive and negative) against each base type's range plus the 64-bit boundaries; const literals of the wrong kind; struct containment over 3 structs with two symbolic field types each (every graph) plus a message that breaks recursion",
+		"oracle":        "rejected (ReadFile or Validate returns an error) exactly when the reference predicate over the symbolic parts says the injected error is present",
+		"outside":       "errors injected into larger schemas, several errors at once, array/map-mediated self-reference (the property does not fix it), integer consts out of range for their width (idem)",
+	}
+	p.Explanation = "bounded symbolic execution of bebop.ReadFile + File.Validate on schema texts with symbolic names and numbers; acceptance is compared with a reference predicate on every path"
+	return p, nil
+}
+
+func PrepareC15(ctx *Ctx) (*Prepared, error) {
+	var funcs []string
+	for b := 0; b < 8; b++ {
+		if ctx.Tier == "thorough" {
+			funcs = append(funcs, fmt.Sprintf("VH_C15LT_%02d", b))
+		} else {
+			funcs = append(funcs, fmt.Sprintf("VH_C15L_%02d", b))
+		}
+		funcs = append(funcs, fmt.Sprintf("VH_C15F_%02d", b))
+	}
+	funcs = append(funcs, "VH_C15O_00")
+	p := prepareTextFuncs(ctx, "C15", funcs, "")
+	p.Bounds = map[string]interface{}{
+		"scope":    "text -> File half only: the value ReadFile stores for enum members, [flags] expressions and opcodes. The emission half (formatting of those values into Go source and the meaning of the emitted literals) is string templating judged by the Go compiler and is outside this check.",
+		"literals": "decimal with 1-3 (thorough 1-5) symbolic digits, hex with 1-2 (thorough 1-4) symbolic digits in either case, negative decimal for signed bases; all 8 base types; values assumed representable",
+		"flags":    "fully parenthesised expressions of up to two operators out of {|, &, <<, >>} over symbolic one-digit operands and earlier members, 4 shapes, 7 base types; intermediate and final values assumed representable, shift counts < 8",
+		"opcodes":  "4 symbolic printable characters; 4 symbolic decimal digits; 3 symbolic hex digits; on struct, message and union",
+		"outside":  "unparenthesised mixed-operator expressions (the property fixes no precedence), longer literals, consts (their text is carried verbatim; covered by C11)",
+	}
+	p.Explanation = "bounded symbolic execution of bebop.ReadFile (strconv.ParseInt/ParseUint on symbolic digits, the generic flag evaluators as instantiated by go/ssa, bytesToOpCode) against positional-notation / bit-operation reference values"
+	return p, nil
+}
